@@ -26,7 +26,10 @@ pub fn case(ctx: &mut Ctx, origin: &str, text: &str) {
     ctx.describe(text);
     let first = match once(text) { Some(x) => x, None => { ctx.count("rejected", 1); return } };
     ctx.count("programs", 1);
-    for rep in 1..3 {
+    // the first run of the driver repeats every program in-process; the other runs (second sharding,
+    // debug build) contribute one more independent draw each
+    let repeats = if std::env::var("VERIF_RUN_INDEX").map_or(true, |v| v == "0") { 3 } else { 1 };
+    for rep in 1..repeats {
         ctx.count("in_process_repeats", 1);
         match once(text) {
             Some(again) if again == first => {}
@@ -133,13 +136,15 @@ pub fn run(ctx: &mut Ctx) {
         for_each_owned(ctx, &g, syn::X, n, n, |ctx, _s, e| { for pl in [0usize, 3, 5, 6] { case(ctx, "U-SYN", &show(&syn::place(&e, pl))) } });
         if ctx.capped { return }
     }
-    let scope_n = if ctx.quick() { 4 } else { 5 } - if debug { 1 } else { 0 };
+    // scope programs decide slot numbering; release: N <= 5 (N = 5 in the block frame only), debug: N <= 4
+    let scope_n = match (ctx.quick(), debug) { (true, false) => 5, (true, true) => 4, (false, false) => 6, (false, true) => 5 };
     let mut gs = super::c12::grammar();
     gs.prepare(scope_n);
     for n in 1..=scope_n {
         ctx.stage(&format!("U-SCOPE(N={})", n));
+        let last = n == scope_n && !debug;
         for_each_owned(ctx, &gs, 1, n, n, |ctx, _s, seq| {
-            for (frame, prog) in super::c12::frames(&seq) { if frame == "block" || frame == "function" { case(ctx, "U-SCOPE", &show(&prog)) } }
+            for (frame, prog) in super::c12::frames(&seq) { if frame == "block" || (frame == "function" && !last) { case(ctx, "U-SCOPE", &show(&prog)) } }
         });
         if ctx.capped { return }
     }
